@@ -10,6 +10,7 @@ import (
 	"os/exec"
 	"path/filepath"
 	"sort"
+	"sync"
 	"strings"
 
 	"golang.org/x/tools/go/callgraph"
@@ -33,6 +34,8 @@ type Program struct {
 	SSAPkgs  map[string]*ssa.Package
 	cg       *callgraph.Graph
 	Controls bool
+	allOnce  sync.Once
+	allFuncs []*ssa.Function
 }
 
 type Options struct {
@@ -305,4 +308,22 @@ func GoVersion() string {
 		return "unknown"
 	}
 	return strings.TrimSpace(string(out))
+}
+
+// IsRepoPkg reports whether the SSA package belongs to the working tree.
+func (p *Program) IsRepoPkg(pk *ssa.Package) bool {
+	return pk != nil && pk.Pkg != nil && (strings.HasPrefix(pk.Pkg.Path(), ModPrefix) || strings.HasPrefix(pk.Pkg.Path(), "jtverifcontrols"))
+}
+
+// AllRepoFuncs lists every source function (and function literal, and package initialiser) of the working tree.
+func (p *Program) AllRepoFuncs() []*ssa.Function {
+	p.allOnce.Do(func() {
+		for fn := range ssautil.AllFunctions(p.SSA) {
+			if p.IsRepoFunc(fn) {
+				p.allFuncs = append(p.allFuncs, fn)
+			}
+		}
+		sort.Slice(p.allFuncs, func(i, j int) bool { return p.allFuncs[i].String() < p.allFuncs[j].String() })
+	})
+	return p.allFuncs
 }
